@@ -565,7 +565,9 @@ PROPS = {
         runs=[dict(comp="preempt", quick=2000, thorough=24000)],
         classify=cls_preempt("C08"),
         nontrivial=lambda line: '"op":"reset"' not in line,
-        rule=PREEMPT_RULE,
+        rule=PREEMPT_RULE + ". Every quota operation is also run step by step without being recorded (hook VerifTryQuotaPreemptionSyncStepped: filterAllocations, sortAllocations, then preemptVictims per leaf queue); when it marked victims it is repeated (twice when it marked several, otherwise with 30% on the candidates) "
+             "with 1..2 of ITS victims - now and then also a candidate that was not selected - released (SetReleased(true)) AFTER the filtering of their leaf queue listed them and BEFORE the victims are marked; the filtered, sorted candidates per leaf are recorded, "
+             "the model computes selection, marking (released victims skipped) and the preempting resource of every queue, and the flags of every allocation, the announcements and every queue's preempting resource are compared (clause C08.Q3-preempting-equals-marked)",
         trusted=PREEMPT_TRUSTED,
         assumptions=["queue tree well-formed (parents before children); allocation keys unique; victim resources non-negative"],
         level_text="Lean 4 proofs for all worlds: a negative remaining-guaranteed entry is witnessed by a queue of the path that is above its guaranteed share; a leaf within its guarantee offers no victims and — full strength, every well-formed world — a leaf offers victims only if a queue of its path is above its guaranteed share whenever its private path sets a guarantee (a private guarantee is never ignored); every victim is taken in a what-if state where that holds for a type the ask needs; no guarantee on the ask path means no attempt; "
